@@ -21,6 +21,9 @@ type SimMem struct {
 	Drops  uint64
 	High   uint64 // accesses with addr >= 2^24 (observation only)
 	SizeV  uint32 // what Size() reports: the device's own business, unrelated to where it is attached
+	// Reenter, when set, runs at the start of every Read and Write: a device whose accesses
+	// have side effects that go back to the bus it sits on (a mirror, a DMA trigger)
+	Reenter func(addr uint32)
 }
 
 type MemEvent struct {
@@ -51,6 +54,9 @@ func (m *SimMem) Read(addr uint32) byte {
 	if m.Env != nil {
 		m.Env.Yield("mem.read")
 	}
+	if m.Reenter != nil {
+		m.Reenter(addr)
+	}
 	m.Reads++
 	if addr >= 1<<24 {
 		m.High++
@@ -65,6 +71,9 @@ func (m *SimMem) Read(addr uint32) byte {
 func (m *SimMem) Write(addr uint32, v byte) {
 	if m.Env != nil {
 		m.Env.Yield("mem.write")
+	}
+	if m.Reenter != nil {
+		m.Reenter(addr)
 	}
 	m.Writes++
 	if addr >= 1<<24 {
